@@ -5,6 +5,7 @@ import FractopoModel.Generated.SnapConstants
 import FractopoModel.Generated.JunctionShift
 import FractopoModel.Props.C08
 import FractopoModel.Generated.ValidationUtils
+import FractopoModel.Lemmas.CropHelpers
 /-!
 # C16 — spatial indexing is a pure optimisation
 
@@ -221,5 +222,29 @@ theorem C16_candidates_complete (bounds_of : G → Rat × Rat × Rat × Rat) (in
   · cases h
 
 end Candidates
+
+/-! ### the empty-target-area test -/
+
+section EmptyArea
+variable {A G : Type}
+
+/-- **The empty-area test does not depend on the index**: for the regenerated `is_empty_area`, whenever the window of every area row
+reports (at least) every trace that meets the row -- and only valid positions -- the answer is "no trace meets any area row",
+whatever else the windows report. -/
+theorem C16_empty_area_transparent (window : A → List Nat) (meets : G → A → Bool) (area : List A) (traces : List G)
+    (hw : ∀ a ∈ area, ∀ (i : Nat) (tr : G), traces[i]? = some tr → meets tr a = true → i ∈ window a) :
+    Gen.is_empty_area window meets area traces = !(area.any fun a => traces.any fun tr => meets tr a) := by
+  rw [CropH.generated_is_empty_area]
+  congr 1
+  rw [Bool.eq_iff_iff]
+  simp only [List.any_eq_true, List.mem_filterMap]
+  constructor
+  · rintro ⟨a, ha, tr, ⟨i, _, hi⟩, hm⟩
+    exact ⟨a, ha, tr, List.mem_of_getElem? hi, hm⟩
+  · rintro ⟨a, ha, tr, htr, hm⟩
+    obtain ⟨i, hi⟩ := List.getElem?_of_mem htr
+    exact ⟨a, ha, tr, ⟨i, hw a ha i tr hi hm, hi⟩, hm⟩
+
+end EmptyArea
 
 end C16
